@@ -336,5 +336,10 @@ Example c20_source_nonvacuous :
   /\ Tie.legal_input q0 k0 v0 m0 2 1 1.
 Proof.
   cbv zeta. split; [vm_compute; reflexivity|]. split; [vm_compute; reflexivity|]. split; [vm_compute; reflexivity|].
-  eapply Tie.attend_legal. vm_compute. reflexivity.
+  assert (H : exists out, attend (fun x : Q => (x * x + 1)%Q) (score (fun x => x) (Dot 1))
+                                 (qt [1; 2] [1; -2]%Q) (qt [1; 2; 3] [1; 0; 2; 1; -1; 3]%Q)
+                                 (qt [2; 2; 3] [1; 2; 3; 4; 5; 6; 7; 8; 9; 10; 11; 12]%Q)
+                                 (Some (bt [2; 3] [true; false; true; true; false; true])) 2 1 1 = Some out)
+    by (eexists; vm_compute; reflexivity).
+  destruct H as [out H]. exact (Tie.attend_legal _ _ _ _ _ _ _ _ _ _ H).
 Qed.
